@@ -121,6 +121,7 @@ static void do_op(const char *op)
     else if (!strcmp(op, "ls")) op_ls();
     else if (!strcmp(op, "mkdir")) op_mkdir();
     else if (!strcmp(op, "lsdir")) op_lsdir();
+    else if (!strcmp(op, "fdcount")) { int n = 0; DIR *d = opendir("/proc/self/fd"); struct dirent *e; if (d) { while ((e = readdir(d))) if (e->d_name[0] != '.') n++; closedir(d); n--; } OUT(" rc=0 n=%d", n); }   /* open POSIX descriptors of this process (minus the directory handle itself) */
     else if (!strcmp(op, "ledger")) op_ledger();
     else if (!strcmp(op, "malloc_list")) { fflush(stdout); rc = ncmpi_inq_malloc_list(); fflush(stdout); OUT(" rc=%d", rc); }
     else if (!strcmp(op, "disk_numrecs")) op_disk_numrecs();
